@@ -44,7 +44,7 @@ Url == mode = "url"
 
 \* ------------------------------------------------------------------ encoders (the two share their shape)
 EncTriple == /\ Running("enc") /\ i + 3 <= n
-             /\ LET v == inp[i + 1] * 65536 + inp[i + 2] * 256 + inp[i + 3] IN
+             /\ LET v == (inp[i + 1] * 65536) + (inp[i + 2] * 256) + inp[i + 3] IN
                 out' = out \o <<Ch(v \div 262144, Url), Ch((v \div 4096) % 64, Url), Ch((v \div 64) % 64, Url), Ch(v % 64, Url)>>
              /\ i' = i + 3 /\ UNCHANGED <<mode, inp, res>>
 EncTail1 == /\ Running("enc") /\ n - i = 1
@@ -52,7 +52,7 @@ EncTail1 == /\ Running("enc") /\ n - i = 1
                Finish("ok", out \o <<Ch(v \div 262144, Url), Ch((v \div 4096) % 64, Url)>>
                             \o (IF Url \/ Dev_EncNoPad THEN <<>> ELSE <<Pad, Pad>>))
 EncTail2 == /\ Running("enc") /\ n - i = 2
-            /\ LET v == inp[i + 1] * 65536 + inp[i + 2] * 256 IN
+            /\ LET v == (inp[i + 1] * 65536) + (inp[i + 2] * 256) IN
                Finish("ok", out \o <<Ch(v \div 262144, Url), Ch((v \div 4096) % 64, Url)>>
                             \o (IF Dev_EncTail2Short THEN <<>> ELSE <<Ch((v \div 64) % 64, Url)>>)
                             \o (IF Url \/ Dev_EncNoPad THEN <<>> ELSE IF Dev_EncTail2Short THEN <<Pad, Pad>> ELSE <<Pad>>))
@@ -63,9 +63,9 @@ Val(c) == IF Dev_UrlAlphabet /\ c = 45 THEN 62 ELSE IF Dev_UrlAlphabet /\ c = 95
 C(k) == inp[i + k]                         \* k = 1..4, the characters of the current quantum
 Last == i + 4 = n
 InQuantum == Running("dec") /\ n > 0 /\ (n % 4 = 0 \/ Dev_NoLenCheck) /\ i < n /\ i + 4 <= n
-B1 == Val(C(1)) * 4 + Val(C(2)) \div 16
-B2 == (Val(C(2)) % 16) * 16 + Val(C(3)) \div 4
-B3 == (Val(C(3)) % 4) * 64 + Val(C(4))
+B1 == (Val(C(1)) * 4) + (Val(C(2)) \div 16)
+B2 == ((Val(C(2)) % 16) * 16) + (Val(C(3)) \div 4)
+B3 == ((Val(C(3)) % 4) * 64) + Val(C(4))
 Advance(bytes) == out' = out \o bytes /\ i' = i + 4 /\ UNCHANGED <<mode, inp, res>>
 
 DecEmpty == Running("dec") /\ n = 0 /\ Finish("ok", <<>>)
